@@ -118,7 +118,15 @@ func (c *ctx) check(sc scenario, tees []int, class string) (base result) {
 	done := strings.HasPrefix(base.outcome, "done.")
 	r.Case(baseLine, done || base.outcome != "err.read", class)
 	r.Hist["outcome:"+strings.SplitN(base.outcome, ".", 3)[0]+"."+lastField(base.outcome, done)]++
-	key := firstClass(sc) + "/" + answerClass(sc)
+	// coarse, stable normal form of the script: shape of the first features list and
+	// whether the answer to the STARTTLS request was <proceed/> or anything else
+	key := firstClass(sc)
+	switch a := answerClass(sc); {
+	case a == "P":
+		key += "/proceed"
+	case key == "tls-opt" || key == "tls-req":
+		key += "/refused"
+	}
 	emit := func(sc scenario, res result) []string {
 		l := c.line(sc, res)
 		r.Line(l, res.trace()+" "+res.outcome)
